@@ -220,17 +220,17 @@ var dgWS = regexp.MustCompile(`\s+`)
 // ---------- a case ----------
 
 type dgCase struct {
-	el     *etree.Element // the element handed to Validate
-	store  []*KeyPair
-	now    time.Time
-	labels []string
-	ledger *dgLedger
-	mustOK bool // generator knowledge: genuine, unedited, signed by a store key inside its window, certificate resolvable
-	mustMissing bool // generator knowledge: the element carries no Signature element at all
-	noKeyInfo bool // generator knowledge: no Signature element in the document carries a KeyInfo
-	ledgerPartial bool // the generator could not reproduce some genuine signature: the ledger check is skipped
-	expectClass string // fixed cases: the outcome class the real library must show ("" = not fixed)
-	xml    string
+	el            *etree.Element // the element handed to Validate
+	store         []*KeyPair
+	now           time.Time
+	labels        []string
+	ledger        *dgLedger
+	mustOK        bool   // generator knowledge: genuine, unedited, signed by a store key inside its window, certificate resolvable
+	mustMissing   bool   // generator knowledge: the element carries no Signature element at all
+	noKeyInfo     bool   // generator knowledge: no Signature element in the document carries a KeyInfo
+	ledgerPartial bool   // the generator could not reproduce some genuine signature: the ledger check is skipped
+	expectClass   string // fixed cases: the outcome class the real library must show ("" = not fixed)
+	xml           string
 }
 
 // ---------- ledger (generator knowledge of what was signed) ----------
@@ -241,8 +241,8 @@ type dgSignedSI struct {
 }
 type dgLedger struct {
 	unreproducible bool // the library's canonicalisers, run again on what its own signer just signed, gave other bytes
-	sis     []dgSignedSI
-	digests map[string][]byte // digest algorithm + "|" + base64 digest -> the bytes the generator digested
+	sis            []dgSignedSI
+	digests        map[string][]byte // digest algorithm + "|" + base64 digest -> the bytes the generator digested
 }
 
 func newDgLedger() *dgLedger { return &dgLedger{digests: map[string][]byte{}} }
@@ -505,15 +505,15 @@ func dgCertLabel(err error) string {
 // ---------- the shadow run ----------
 
 type dgShadow struct {
-	label    string // "ok" or the label of the first failing stage
-	found    bool
-	path     []int
-	mutated  *etree.Element
-	si       []byte
-	haveSI   bool
-	ref      []byte
-	haveRef  bool
-	tree     *etree.Element
+	label   string // "ok" or the label of the first failing stage
+	found   bool
+	path    []int
+	mutated *etree.Element
+	si      []byte
+	haveSI  bool
+	ref     []byte
+	haveRef bool
+	tree    *etree.Element
 }
 
 func (s *dgShadow) fail(l string) {
